@@ -23,7 +23,9 @@ PID = "C17"
 SCR = os.path.join(framework.ROOT, ".scratch")
 NEGS = {"wrap_inputs0": "WrapsAsResolvedSignal", "meta_last": "WrapsAsResolvedSignal",
         "out_not_returned": "OutIsReturned", "reduce_through": "Refusals", "matmul_through": "Refusals",
-        "nout2_first": "WrapsAsResolvedSignal", "pinned_array": "AsArrayIsData"}
+        "nout2_first": "WrapsAsResolvedSignal", "pinned_array": "AsArrayIsData",
+        "cast_unsafe": ("ErrorsAsOnArrays", "InputsUnchanged")}
+HEAP = "2g"
 
 
 # ------------------------------------------------------------------ TLC side
@@ -32,7 +34,7 @@ def gen_cases(chk, name, cfg, workers=16):
     out = os.path.join(SCR, "%s_%s_%d.ndjson" % (PID, name, os.getpid()))
     if os.path.exists(out):
         os.remove(out)
-    r = tlc.run("Gen_Ufunc", cfg, env={"GEN_OUT": out}, timeout=1500, workers=workers)
+    r = tlc.run("Gen_Ufunc", cfg, env={"GEN_OUT": out}, timeout=1500, workers=workers, heap=HEAP)
     chk.add_tlc("gen:" + name, r)
     if not r.ok:
         chk.machinery_errors.append("generation %s failed: %s" % (name, r.stdout[-2000:]))
@@ -56,6 +58,11 @@ def build_tables(cases):
     """d1 cases -> ufunc groups {key: [records differing in rk]}, asarray table"""
     groups, asarr, qeq = {}, {}, {}
     for c in cases:
+        if "cast_table" in c:
+            # the specification's same_kind table (Ufunc!SameKind), printed once by TLC
+            import ufunc_replay as ur
+            ur.CAST_TABLE = {tuple(x) for x in c["cast_table"]}
+            continue
         s = c["hist"][0]
         if s["act"] == "ufunc":
             groups.setdefault(gkey(c["heap0"], s), []).append(s)
@@ -82,7 +89,7 @@ def candidates(step):
     return ur.BY_KIND[ur.KIND_OF_U[step["u"]]]
 
 
-def attempt(heap0, recs, seed, back, uf_name=None, dtypes=None, form=None, tries=6):
+def attempt(heap0, recs, seed, back, uf_name=None, dtypes=None, form=None, tries=6, followup=None):
     """One seeded realisation of an arrangement group.  Returns (Outcome, description dict)."""
     import ufunc_replay as ur
     rnd = random.Random(seed)
@@ -116,7 +123,8 @@ def attempt(heap0, recs, seed, back, uf_name=None, dtypes=None, form=None, tries
             return o, {}
         fs = ur.forms_for(uf, step["m"], step["ins"], step["outs"], w.objs)
         fm = form if form in fs else rnd.choice(fs)
-        oc = ur.run_ufunc_step(w, step, uf, fm, lookup=lookup)
+        oc = ur.run_ufunc_step(w, step, uf, fm, lookup=lookup,
+                               followup=(rnd.random() < 0.3) if followup is None else followup)
         last = (oc, {"ufunc": uf.__name__, "form": fm, "info": w.info, "rk": oc.rk})
         if oc.skip is None:
             return last
@@ -128,8 +136,13 @@ def record(chk, oc, case, stats, tag):
         stats["skipped:" + oc.skip.split(" for ")[0]] = stats.get("skipped:" + oc.skip.split(" for ")[0], 0) + 1
         return False
     chk.validated += 1
+    if oc.errpath:
+        stats["error_path_steps(raises on bare arrays => raises on signals)"] = \
+            stats.get("error_path_steps(raises on bare arrays => raises on signals)", 0) + 1
+        if oc.rec and oc.rec["st"] == "UFuncTypeError":
+            stats["same_kind_refusals_checked"] = stats.get("same_kind_refusals_checked", 0) + 1
     for x in oc.rk or ():
-        if x != "-":
+        if x not in ("-", "!", "raise"):
             stats.setdefault("result_dtype_kinds_seen", set()).add(x)
     for n in oc.notes:
         stats[n] = stats.get(n, 0) + 1
@@ -169,7 +182,7 @@ def arrangement_sweep(chk, groups, rnd, limit, stats, deadline):
             lab = "%s.%s" % (k[1], k[2])
             ncov[lab] = ncov.get(lab, 0) + 1
             stats.setdefault("ufuncs_used", set()).add(d["ufunc"])
-            if oc.rec.get("sub") and oc.rec["st"] == "ok":
+            if oc.rec.get("sub") and oc.rec["st"] == "ok" and not oc.errpath:
                 stats["subclass_resolved_cases"] = stats.get("subclass_resolved_cases", 0) + 1
                 if len(chk.samples) < 2:
                     chk.sample({"note": "a later strict-subclass operand is resolved first (NumPy rule, not an alarm)",
@@ -201,15 +214,16 @@ def ufunc_sweep(chk, groups, rnd, per_combo, stats, deadline, backs, dask_share=
     """all of NumPy's ufuncs x every class x dtypes of the class x backings"""
     import ufunc_replay as ur
     menu = {"Signal": ["float64", "float32", "complex128", "complex64", "int64", "int32", "uint8", "bool", "float16", "longdouble",
-                       "U4", "datetime64[s]"],
-            "RadioSignal": ["float64", "complex64", "int64", "bool", "float32", "uint8"]}
+                       "U4", "datetime64[s]", ">f8", ">c8", ">i2"],
+            "RadioSignal": ["float64", "complex64", "int64", "bool", "float32", "uint8", ">f4", ">i2"]}
     valid, tried = {}, 0
     combos = []
     for uf in ur.UFUNCS:
         for cls in ur.SIG:
             for dt in menu.get(cls) or ur.REQ[cls]:
                 for back in backs:
-                    if back == "dask" and (dt in ("float16", "longdouble", "U4", "datetime64[s]") or rnd.random() > dask_share):
+                    if back == "dask" and (dt in ("float16", "longdouble", "U4", "datetime64[s]") or dt[0] == ">"
+                                           or rnd.random() > dask_share):
                         continue
                     combos.append((uf, cls, dt, back))
     rnd.shuffle(combos)
@@ -224,14 +238,16 @@ def ufunc_sweep(chk, groups, rnd, per_combo, stats, deadline, backs, dask_share=
                 dead[(uf, dt)] = False
             except Exception:
                 dead[(uf, dt)] = True
-        if dead[(uf, dt)]:
-            stats["ufunc_dtype_combinations_invalid_on_raw"] = stats.get("ufunc_dtype_combinations_invalid_on_raw", 0) + 1
-            continue
         if time.time() > deadline:
             stats["ufunc_sweep_truncated_at"] = "%d of %d" % (n, len(combos))
             break
         arrs = STD[(uf.nin, uf.nout)]
-        pick = arrs if per_combo >= len(arrs) else rnd.sample(arrs, per_combo)
+        if dead[(uf, dt)]:
+            # not valid for the dtype: the same refusal is expected from the signal (one arrangement)
+            stats["ufunc_dtype_combinations_invalid_on_raw"] = stats.get("ufunc_dtype_combinations_invalid_on_raw", 0) + 1
+            pick = [arrs[4] if (uf.nin, uf.nout) == (2, 1) else arrs[0]] if dt not in ("U4", "datetime64[s]") else []
+        else:
+            pick = arrs if per_combo >= len(arrs) else rnd.sample(arrs, per_combo)
         for heap_t, ins, outs in pick:
             heap0 = [cls if d == "C" else d for d in heap_t]
             if (back == "dask") and ("dask" in heap0):
@@ -256,6 +272,42 @@ def ufunc_sweep(chk, groups, rnd, per_combo, stats, deadline, backs, dask_share=
     stats["ufuncs_never_valid"] = sorted(set(f.__name__ for f in ur.UFUNCS) - set(valid))
 
 
+def operator_sweep(chk, groups, rnd, stats, reps):
+    """Python operator forms, directed: +x -x abs(x) ~x, x op y / y op x for every binary operator with a
+    scalar, an array and a signal, and x op= y, on every class and every dtype (and byte order) it accepts,
+    valid or not for the dtype (what raises on the data must raise on the signal)."""
+    import ufunc_replay as ur
+    menu = {"Signal": ["float64", "complex64", "int16", "uint8", "bool", ">f8", ">c8", ">i2", "int64", "float32"],
+            "RadioSignal": ["float32", "complex128", "int32", "bool", ">f4", ">i2"]}
+    n = 0
+    for cls in ur.SIG:
+        for dt in menu.get(cls) or ur.REQ[cls]:
+            for back in ("np", "dask"):
+                if back == "dask" and dt[0] == ">":
+                    continue
+                jobs = [(name, ([cls], [1], [0]), "neg", "op") for name in ur.UNOPS]
+                for name in ur.BINOPS:
+                    jobs += [(name, ([cls, "scal"], [1, 2], [0]), "add", "op"), (name, (["scal", cls], [1, 2], [0]), "add", "op"),
+                             (name, ([cls, "arr"], [1, 2], [0]), "add", "op"), (name, ([cls], [1, 1], [0]), "add", "op")]
+                for name in ur.IBINOPS:
+                    jobs += [(name, ([cls, "scal"], [1, 2], [1]), "add", "iop"), (name, ([cls, "arr"], [1, 2], [1]), "add", "iop"),
+                             (name, ([cls, cls], [1, 2], [1]), "add", "iop")]
+                if reps < 1:
+                    jobs = [j for j in jobs if j[0] in ur.UNOPS or rnd.random() < (reps if j[3] == "op" else 2.5 * reps)]
+                for name, (heap0, ins, outs), uname, form in jobs:
+                    recs = groups.get((tuple(heap0), uname, "call", tuple(ins), tuple(outs)))
+                    if recs is None:
+                        continue
+                    seed = rnd.randrange(1 << 31)
+                    dts = {str(i): dt for i, d in enumerate(heap0) if d == cls}
+                    oc, d = attempt(heap0, recs, seed, back, uf_name=name, dtypes=dts, form=form, tries=1, followup=True)
+                    case = {"kind": "group", "heap0": heap0, "recs": recs, "seed": seed, "back": back,
+                            "uf": name, "dtypes": dts, "form": form, "followup": True}
+                    if record(chk, oc, case, stats, "op"):
+                        n += 1
+    stats["operator_forms_replayed"] = n
+
+
 def attempt_chain(case, seed, back):
     """in-place chain (three steps, the last one possibly a conversion) on one world"""
     import ufunc_replay as ur
@@ -276,10 +328,15 @@ def attempt_chain(case, seed, back):
                 fs = ur.forms_for(uf, "call", s["ins"], s["outs"], w.objs)
                 fm = "iop" if ("iop" in fs and rnd.random() < 0.6) else rnd.choice(fs)
                 oc = ur.run_ufunc_step(w, s, uf, fm)
+                if oc.errpath:
+                    # refused on the bare arrays: must be refused on the signals, both worlds stay as they were
+                    bad += [(k, m + " | after " + " -> ".join(used)) for k, m in oc.bad]
+                    nsteps += 1 if oc.skip is None else 0
+                    continue
                 if oc.skip is None:
                     used.append("%s/%s" % (uf.__name__, fm))
                     break
-            if oc.skip is not None:
+            if oc.skip is not None or oc.errpath:
                 return "raw raises", bad, nsteps
             bad += oc.bad
             nsteps += 1
@@ -403,6 +460,8 @@ def chain_sweep(chk, chains, rnd, limit, stats, deadline):
         skip, bad, ns = attempt_chain(c, seed, back)
         if skip:
             stats["skipped:chain " + skip] = stats.get("skipped:chain " + skip, 0) + 1
+            for key, desc in bad:       # error-path steps met before the chain was given up
+                chk.violation("chain:" + key, desc, {"kind": "chain", "case": c, "seed": seed, "back": back})
             continue
         done += 1
         steps += ns
@@ -430,13 +489,14 @@ def run(chk):
     g2 = pool.submit(gen_cases, chk, "chain", "Gen_Ufunc_chain.cfg", 6)
     jobs = {}
     mcs = ["MC_Ufunc_full.cfg", "MC_Ufunc_chain_full.cfg"] if thorough else ["MC_Ufunc_quick.cfg", "MC_Ufunc_chain_quick.cfg"]
-    negs = sorted(NEGS) if thorough else sorted({sorted(NEGS)[chk.seed % len(NEGS)], "pinned_array"})
+    negs = sorted(NEGS) if thorough else sorted({sorted(NEGS)[chk.seed % len(NEGS)], "pinned_array", "cast_unsafe"})
     d1, chains = g1.result(), g2.result()
     chains.sort(key=lambda c: json.dumps(c, sort_keys=True))     # TLC's output order depends on worker timing
     for cfg in mcs:
-        jobs[cfg] = pool.submit(tlc.run, "MC_Ufunc", cfg, workers=6 if thorough else 4, timeout=2400)
+        jobs[cfg] = pool.submit(tlc.run, "MC_Ufunc", cfg, workers=6 if thorough else 4, timeout=2400, heap=HEAP)
     for v in negs:
-        jobs["Neg_Ufunc_%s.cfg" % v] = pool.submit(tlc.run, "MC_Ufunc", "Neg_Ufunc_%s.cfg" % v, workers=2, timeout=600)
+        jobs["Neg_Ufunc_%s.cfg" % v] = pool.submit(tlc.run, "MC_Ufunc", "Neg_Ufunc_%s.cfg" % v, workers=2, timeout=600,
+                                                   heap=HEAP)
     groups, asarr, qeq = build_tables(d1)
     repo_job = None
     try:
@@ -448,13 +508,14 @@ def run(chk):
     stats["generated_d1_records"] = len(d1)
     stats["generated_chains"] = len(chains)
     # sizes are counts (deterministic for a seed); the deadlines only guard against an overloaded machine
-    end = t0 + (800 if thorough else 130)
+    end = t0 + (800 if thorough else 118)
     asarray_sweep(chk, asarr, rnd, stats, thorough)
     qty_eq_sweep(chk, qeq, rnd, stats, 6 if thorough else 2)
-    ufunc_sweep(chk, groups, rnd, 99 if thorough else 2, stats, t0 + (420 if thorough else 75),
+    operator_sweep(chk, groups, rnd, stats, 1 if thorough else 0.1)
+    ufunc_sweep(chk, groups, rnd, 99 if thorough else 2, stats, t0 + (420 if thorough else 85),
                 ("np", "dask"), 1.0 if thorough else 0.12)
-    arrangement_sweep(chk, groups, rnd, 10 ** 9 if thorough else 2200, stats, t0 + (680 if thorough else 100))
-    chain_sweep(chk, chains, rnd, 5000 if thorough else 450, stats, end)
+    arrangement_sweep(chk, groups, rnd, 10 ** 9 if thorough else 1800, stats, t0 + (680 if thorough else 105))
+    chain_sweep(chk, chains, rnd, 5000 if thorough else 350, stats, end)
     trace_part(chk, rnd, stats, thorough, repo_job)
     stats["ufuncs_used"] = len(stats.get("ufuncs_used", ()))
     stats["result_dtype_kinds_seen"] = sorted(stats.get("result_dtype_kinds_seen", ()))
@@ -470,7 +531,7 @@ def run(chk):
         if name.startswith("Neg_"):
             chk.add_tlc(name, r)
             want = NEGS[name[len("Neg_Ufunc_"):-4]]
-            if r.violation != want:
+            if r.violation not in (want if isinstance(want, tuple) else (want,)):
                 chk.machinery_errors.append("negative model %s: TLC reported %r, expected violation of %s"
                                             % (name, r.violation, want))
         else:
@@ -503,7 +564,8 @@ def replay(doc):
     bad = []
     if c["kind"] == "group":
         oc, d = attempt(c["heap0"], c["recs"], c["seed"], c["back"], uf_name=c.get("uf"), dtypes=c.get("dtypes"),
-                        tries=2 if c.get("uf") else 6)
+                        form=c.get("form"), tries=(1 if c.get("form") else 2) if c.get("uf") else 6,
+                        followup=c.get("followup"))
         print("replayed:", d, "skip:", oc.skip)
         bad = oc.bad
     elif c["kind"] == "chain":
